@@ -90,6 +90,7 @@ class Result:
     self.thread_excs = []   # (name, exception) that escaped non-main threads
     self.clock = 0.0
     self.events = None      # full event log when requested
+    self.pruned = False     # stopped at an already expanded node (hb cache)
 
 
 class Scheduler:
@@ -100,7 +101,7 @@ class Scheduler:
 
   def __init__(self, prefix=(), *, mode='preempt', max_steps=20000,
                max_clock=3.0e4, keep_events=False, snapshot=None,
-               tick=None):
+               tick=None, cache=None):
     self.prefix = list(prefix)
     self.mode = mode              # 'preempt' | 'delay'
     if tick:
@@ -123,6 +124,7 @@ class Scheduler:
     self.objects = 0
     self.timers = []              # (deadline, callback) fired at quiescence
     self.on_step = None
+    self.cache = cache        # happens-before cache of expanded nodes
     self.hb = True
     self.trace_hash = 0
     self._lw = {}    # object -> vc of last write
@@ -229,7 +231,8 @@ class Scheduler:
     res.events = self.events
     if stuck:
       raise HarnessError(f'threads did not unwind: {stuck}')
-    if len(res.choices) < len(self.prefix) and res.failure is None:
+    if (len(res.choices) < len(self.prefix) and res.failure is None
+        and not res.pruned):
       raise Divergence(f'prefix longer than execution: {self.prefix} '
                        f'vs {res.choices}')
     return res
@@ -477,6 +480,20 @@ class Scheduler:
         raise Abort()
     else:
       idx = 0
+      if self.cache is not None and self.hb:
+        # A node reached beyond the replayed prefix whose Mazurkiewicz trace,
+        # running thread and budget were expanded before: its whole subtree
+        # (this continuation included) is already explored - stop here.
+        key = self.state_key(self.current, kind)
+        used = tuple(self.used)
+        prev = self.cache.get(key)
+        if prev is not None and any(
+            u[0] <= used[0] and u[1] <= used[1] for u in prev):
+          self.res.pruned = True
+          self.aborting = True
+          self._done_evt.set()
+          raise Abort()
+        self.cache.setdefault(key, []).append(used)
     self.res.points.append(
         Point(n, idx, (budget, tuple(costs)), kind, tuple(self.used),
               self.state_key(self.current, kind) if self.hb else None))
